@@ -877,9 +877,14 @@ func (s *TxStore) Rollback(tx mwdb.DBTransaction, height uint64) error {
 							})
 					} else {
 						if curHeight > 0 && readAddressHeight(addrVal) == curHeight {
-							// back to "issued but unused": the address stays listed
-							addrRec.blockHeight = 0
-							err = putRawAddressRecord(nsAddresses, addrKey, valueAddressRecord(addrRec))
+							if addressRecordFromPayment(addrVal) {
+								// never issued in this form: the record goes with the payment
+								err = deleteRawAddressRecord(nsAddresses, addrKey)
+							} else {
+								// back to "issued but unused": the address stays listed
+								addrRec.blockHeight = 0
+								err = putRawAddressRecord(nsAddresses, addrKey, valueAddressRecord(addrRec))
+							}
 							if err != nil {
 								return err
 							}
@@ -1104,9 +1109,14 @@ func (s *TxStore) Rollback(tx mwdb.DBTransaction, height uint64) error {
 						})
 				} else {
 					if curHeight > 0 && readAddressHeight(addrVal) == curHeight {
-						// back to "issued but unused": the address stays listed
-						addrRec.blockHeight = 0
-						err = putRawAddressRecord(nsAddresses, addrKey, valueAddressRecord(addrRec))
+						if addressRecordFromPayment(addrVal) {
+							// never issued in this form: the record goes with the payment
+							err = deleteRawAddressRecord(nsAddresses, addrKey)
+						} else {
+							// back to "issued but unused": the address stays listed
+							addrRec.blockHeight = 0
+							err = putRawAddressRecord(nsAddresses, addrKey, valueAddressRecord(addrRec))
+						}
 						if err != nil {
 							return err
 						}
